@@ -83,7 +83,9 @@ def generate(prop, seed, tier):
                 op["fault"] = _gen_write_fault(S)
             ops.append(op)
         elif kind == "load":
-            op = {"op": "load", "rows": S.pick([1, 2, 3, 10, 100, 1000, 10000] if tier == "thorough" else [1, 2, 3, 10, 100, 1000]), "cols": S.int(1, 3), "fseed": S.sub("file", k), "prec": S.pick([4, 2, 6]), "final_newline": S.chance(0.8), "fault": None}
+            op = {"op": "load", "rows": S.pick([1, 2, 3, 10, 100, 1000, 10000] if tier == "thorough" else [1, 2, 3, 10, 100, 1000]), "cols": S.int(1, 3), "fseed": S.sub("file", k), "prec": S.pick([4, 2, 6]), "final_newline": S.chance(0.8), "fault": None,
+                  # history: the caller changes the returned frame in place, then reads the same file again
+                  "reload": S.wpick([(None, 3), ("scale", 1), ("drop", 1), ("rename", 1), ("plain", 1)])}
             if S.chance(0.5):
                 op["fault"] = S.wpick([({"kind": "short_read", "n": S.pick([1, 7, 64, 1000])}, 3), ({"kind": "eio_read", "after": S.pick([0, 10, 100, 1000, 5000])}, 3)])
             ops.append(op)
@@ -318,22 +320,46 @@ def do_load(run, scen, op, si, root):
     if exc is not None:
         run.violate("load-raises", type(exc).__name__, {"exc": repr(exc)[:300], "rows": op["rows"], "fault": fault, "step": si})
         return
+    if not _check_frame(run, op, si, df, names, vals, stamps, fault):
+        return
+    mode = op.get("reload")
+    if mode:
+        # F7 history fault: what the caller does with the first frame must not change the next read
+        if mode == "scale":
+            df.iloc[:, 0] *= 2.0
+        elif mode == "drop":
+            df.drop(df.index[:1], inplace=True)
+        elif mode == "rename":
+            df.rename(columns={df.columns[0]: "renamed"}, inplace=True)
+        try:
+            df2 = read_ec_benchmark_dataset(path)
+        except Exception as e:  # noqa: BLE001
+            run.violate("load-raises", type(e).__name__ + "/second-read", {"exc": repr(e)[:300], "step": si})
+            return
+        run.count("probe:file-read-again-after-caller-changed-frame")
+        run.event("reload", mode, list(df2.shape))
+        _check_frame(run, op, si, df2, names, vals, stamps, {"kind": "reload-after-" + mode})
+
+
+def _check_frame(run, op, si, df, names, vals, stamps, fault):
     run.count("load_frames_checked")
     if list(df.shape) != [op["rows"], op["cols"]]:
         run.violate("load-shape", "rows" if df.shape[0] != op["rows"] else "cols", {"got": list(df.shape), "want": [op["rows"], op["cols"]], "fault": fault, "step": si})
-        return
+        return False
     if [str(c) for c in df.columns] != names:
-        run.violate("load-columns", "names", {"got": [str(c) for c in df.columns], "want": names, "step": si})
-        return
+        run.violate("load-columns", "names", {"got": [str(c) for c in df.columns], "want": names, "fault": fault, "step": si})
+        return False
     got = np.asarray(df.values, dtype=float)
     if not np.array_equal(got, np.array(vals, dtype=float).reshape(op["rows"], op["cols"])):
         bad = int(np.argmax(np.any(got != np.array(vals), axis=1)))
-        run.violate("load-values", "values", {"row": bad, "got": got[bad].tolist(), "want": vals[bad], "step": si})
-        return
+        run.violate("load-values", "values", {"row": bad, "got": got[bad].tolist(), "want": vals[bad], "fault": fault, "step": si})
+        return False
     idx = [ts.to_pydatetime() for ts in df.index]
     if idx != stamps:
         bad = next(i for i, (a, b) in enumerate(zip(idx, stamps)) if a != b)
-        run.violate("load-index", "timestamps", {"row": bad, "got": str(idx[bad]), "want": str(stamps[bad]), "step": si})
+        run.violate("load-index", "timestamps", {"row": bad, "got": str(idx[bad]), "want": str(stamps[bad]), "fault": fault, "step": si})
+        return False
+    return True
 
 
 # --------------------------------------------------------------------------
@@ -706,5 +732,5 @@ def describe(prop):
             "a save that raises may leave anything on disk; a save that returns must have written the complete file",
             "isodensity lines are judged by evaluating the model's pdf at the drawn vertices (25 % tolerance for grid interpolation)",
         ],
-        "probes": ["save-after-fault-recovers", "save-overwrites", "reader-bypassed-file-seam"],
+        "probes": ["save-after-fault-recovers", "save-overwrites", "reader-bypassed-file-seam", "file-read-again-after-caller-changed-frame"],
     }
